@@ -96,6 +96,10 @@ def run(res, tier):
         if vlib.wide(tier):
             cases.append((imp, CURRENTS[imp][1], 64, ("Ts", 512), 2.0, 0.6, ()))
 
+    # few steps per period on a fine grid with an order-one distortion: the wake kick reaches one to two CELLS per step in the core
+    for cur in (6e-3, 15e-3):
+        cases.append(("collimator", cur, 128, ("Ts", 24), 40.5, 1.2, ()))
+
     def do(c):
         imp, cur, n, (mode, steps), td, zoom, dev = c
         a = ["-s", n, "-T", 10 * td, "-n", steps // 2, "-f", FS, "-d", td / FS, "-I", cur, "--InitialDistZoom", zoom] + (["--padding", 4] if "--padding" not in dev else []) + IMPS[imp] + list(dev)
@@ -147,9 +151,10 @@ def run(res, tier):
         res.coverage["worst_residual_over_bound"] = max(res.coverage.get("worst_residual_over_bound", 0), m["residual"] / bound)
         if m["residual"] > bound:
             res.violate(key + "/haissinski-residual", case, "residual spread %.4f > bound %.4f (wake term D = %.3f, energy spread %.4f)" % (m["residual"], bound, m["D"], m["sE"]), replay=rp)
-        if abs(m["sE"] - 1) > 0.003 + (0.45 if three else 0.1) * d * d:
+        # (a coarse time step leaves a splitting error of the order of the squared step angle in the widths: 0.9 % at 24 steps per period)
+        if abs(m["sE"] - 1) > 0.003 + (0.45 if three else 0.1) * d * d + m["a"] ** 2 / 6:
             res.violate(key + "/energy-spread", case, "energy spread %.5f in the stationary state" % m["sE"], replay=rp)
-    res.coverage["table"] = [dict(case=c, residual=round(m["residual"], 4), D=round(m["D"], 3), sE=round(m["sE"], 4), stationarity=float("%.2g" % m["stationarity"])) for c, m in table][:60]
+    res.coverage["table"] = [dict(case=c, residual=round(m["residual"], 4), D=round(m["D"], 3), sE=round(m["sE"], 4), stationarity=float("%.2g" % m["stationarity"])) for c, m in table][-70:]
     res.rule = ("one evaluation = one run of the real binary to stationarity (10 damping times) and the Haissinski residual of its last record; "
                 "lattice: impedance x current x grid x steps (per synchrotron period / per revolution) x damping time x start zoom; non-trivial = D >= 0.05")
     res.bounds_done.append("%d runs" % len(cases))
